@@ -258,7 +258,18 @@ func newWorld(h *hist) *world {
 		must(err)
 		in, _ := json.Marshal(map[string]interface{}{"fields": h.Settings})
 		if r, e, _ := w.exec(1, gn.OwnerId, "update_settings", in); r != "DAccept" {
-			panic("update_settings: " + e)
+			// the contract refuses the request (e.g. a validated x_percent): go on with the accepted part
+			rest := map[string]string{}
+			for k, v := range h.Settings {
+				if k != "x_percent" {
+					rest[k] = v
+				}
+			}
+			h.Settings = rest
+			in, _ = json.Marshal(map[string]interface{}{"fields": rest})
+			if r2, e2, _ := w.exec(1, gn.OwnerId, "update_settings", in); r2 != "DAccept" {
+				panic("update_settings: " + e + " / " + e2)
+			}
 		}
 	}
 	return w
@@ -643,11 +654,16 @@ func (w *world) runBlock(round int64, b blk) blockRes {
 			}
 		}
 		res, e, left := w.exec(round, w.idOf(t.From), fn, in)
-		if t.Kind == "contribute" && res == "DAccept" && t.Len == 0 {
-			if t.Claim == 0 || t.Claim == t.From {
-				w.ownMPK[t.From] = w.cycle + 1
-			} else {
-				w.ownMPK[t.Claim] = 0 // somebody else's key now sits under that id
+		if t.Kind == "contribute" && res == "DAccept" {
+			// the id the key was recorded under, as observed
+			for _, x := range w.observe(left, round).mpks {
+				if !has(d.mpks, x) {
+					if x == t.From && t.Len == 0 {
+						w.ownMPK[t.From] = w.cycle + 1
+					} else {
+						w.ownMPK[x] = 0 // somebody else's key now sits under that id
+					}
+				}
 			}
 		}
 		r.ownMPK = append(r.ownMPK, w.ownMPK[t.From] == w.cycle+1)
@@ -802,6 +818,16 @@ func (w *world) judge(b blk, r blockRes, count func(string)) []viol {
 			if t.Claim != 0 {
 				claimed = t.Claim
 			}
+			if res == "DAccept" {
+				// the id the key was really recorded under
+				for _, x := range r.txLeft[i].mpks {
+					if !has(d.mpks, x) {
+						claimed = x
+					}
+				}
+			} else if has(d.mpks, t.From) && !has(d.mpks, claimed) {
+				claimed = t.From // a contract that ignores the input's ID refuses because the sender already has a key
+			}
 			okIn := r.phase == int64(minersc.Contribute) && member && !t.Garbage && t.Len == 0
 			switch {
 			case res == "DPanic":
@@ -828,8 +854,8 @@ func (w *world) judge(b blk, r blockRes, count func(string)) []viol {
 					if !r.idKnown[i] {
 						unknownShare = true
 					}
-					if (t.SosID != 0 && t.SosID != t.From) || !r.ownMPK[i] {
-						allValid = false // validated against somebody else's MPK
+					if !r.ownMPK[i] {
+						allValid = false // the sender's own MPK is not what is recorded under its id
 					}
 				default:
 					allValid = false
@@ -849,7 +875,7 @@ func (w *world) judge(b blk, r blockRes, count func(string)) []viol {
 				add("share-with-null-entries-accepted", "shareSignsOrShares from %d with null entries (no signature, no share) was accepted", t.From)
 			case res == "DAccept" && !allValid:
 				add("invalid-share-accepted", "shareSignsOrShares from %d with an invalid entry was accepted", t.From)
-			case res == "DReject" && okIn && member && allValid && !anyNil && !unknownShare:
+			case res == "DReject" && okIn && member && allValid && !anyNil && !unknownShare && (t.SosID == 0 || t.SosID == t.From):
 				add("valid-share-rejected", "valid shareSignsOrShares from member %d was rejected: %s", t.From, r.txErr[i])
 			}
 		case "wait":
